@@ -21,6 +21,7 @@ def run(run, model):
     run.do(meta.provenance_rule, model, "C16.base-first", "__postconditions__", "postconditions")
     run.do(meta.provenance_rule, model, "C16.base-first", "__postcondition_snapshots__", "snapshots")
     run.do(c04.weaken_table, model, "C16.collapse")
+    run.do(c04.groups_kept, model, "C16.groups-kept")
     run.do(meta.per_member_state, model, "C16.per-member-state")
     run.do(c04.invariant_provenance, model, "C16.base-first", "C16.inv-own")
     for role, ck in gates.checkers(model).items():
@@ -40,6 +41,8 @@ def run(run, model):
     run.do(c17.invariant_decorator_table, model, "C16.decorator-lists")
     # the one re-evaluation of a violated condition evaluates each operand once
     run.do(rec.chain_and_lazy_compare, model, "C16.reeval-chain", "C16.reeval-chain-once")
+    from . import msg
+    run.do(msg.reeval_once, model)
     run.minimum("C16.phases", 2)
     run.minimum("C16.inv-phases", 2)
     run.minimum("C16.append", 3)
